@@ -78,6 +78,8 @@ struct Job {
     max_schedules: usize,
 }
 
+static SKIPPED_JOBS: std::sync::atomic::AtomicU64 = std::sync::atomic::AtomicU64::new(0);
+
 pub fn run(prop: &str, tier: &str, seed: u64, out_dir: &Path, threads: usize) -> Value {
     let q = tier == "quick";
     let mut rng = StdRng::seed_from_u64(seed);
@@ -183,6 +185,10 @@ pub fn run(prop: &str, tier: &str, seed: u64, out_dir: &Path, threads: usize) ->
     if let Ok(f) = std::env::var("VERIF_CFGFILTER") {
         jobs.retain(|j| j.cfg == f);
     }
+    // the job list is consumed from the END (pop): reverse it so that the exhaustive and curated programs come first
+    jobs.reverse();
+    let started = std::time::Instant::now();
+    let budget = std::time::Duration::from_secs(if q { 600 } else { 1800 });
     let jobs = Arc::new(Mutex::new(jobs.into_iter().enumerate().collect::<Vec<_>>()));
     let totals = Arc::new(Mutex::new((0u64, 0u64, 0u64, 0usize, 0u64))); // programs, schedules, histories, max yields, truncated
     let samples = Arc::new(Mutex::new(Vec::<Value>::new()));
@@ -203,6 +209,15 @@ pub fn run(prop: &str, tier: &str, seed: u64, out_dir: &Path, threads: usize) ->
                 // after a number of deadlocked programs the verdict is clear: do not spend the budget on more
                 if STUCK_PROGRAMS.load(std::sync::atomic::Ordering::SeqCst) > 3 {
                     break;
+                }
+                // wall-clock budget for the scheduled part (jobs are shuffled by construction: curated and exhaustive
+                // ones first); what was not explored is simply not counted
+                if started.elapsed() > budget {
+                    SKIPPED_JOBS.fetch_add(1, std::sync::atomic::Ordering::SeqCst);
+                    if jobs.lock().unwrap().pop().is_none() {
+                        break;
+                    }
+                    continue;
                 }
                 let job = jobs.lock().unwrap().pop();
                 let (jid, job) = match job {
@@ -399,7 +414,7 @@ pub fn run(prop: &str, tier: &str, seed: u64, out_dir: &Path, threads: usize) ->
     }
     let tt = totals.lock().unwrap();
     json!({"cfg":"conc","mode":prop,"names":"ascii","b":1,"events":events,"segments":events,"programs":tt.0,"schedules":tt.1,"histories":tt.2,
-           "max_yield_points":tt.3,"truncated_explorations":tt.4,"free_running_stress_rounds":stress_rounds + c16_rounds,"edges_run":tt.1,"distinct_state_ops":tt.2,"samples":*samples.lock().unwrap()})
+           "max_yield_points":tt.3,"truncated_explorations":tt.4,"free_running_stress_rounds":stress_rounds + c16_rounds,"jobs_skipped_by_time_budget":SKIPPED_JOBS.load(std::sync::atomic::Ordering::SeqCst),"edges_run":tt.1,"distinct_state_ops":tt.2,"samples":*samples.lock().unwrap()})
 }
 
 /// explore ONE program given as JSON {"cfg","init":[{p,k,d}],"pre_remove":[[..]],"progs":[[{op,p,c}]],"bound":n|-1,"prop"}
